@@ -138,7 +138,7 @@ def restart_family(sc):
                 continue
             snap = o["snap"]
             alive = [i for i, a in enumerate(snap["alive"]) if a]
-            parts = [dict(pid=snap["pid"][i], x=snap["x"][i], y=snap["y"][i], z=snap["z"][i], alive=True, active=True,
+            parts = [dict(pid=snap["pid"][i], x=snap["x"][i], y=snap["y"][i], z=snap["z"][i], alive=True, active=bool(snap["active"][i]),
                           farm=snap["farm"][i], age=snap["age"][i]) for i in alive]
             npid = snap["npid"]
             born = [dict(rt=f["pv_release_time"][p], src=f["pv_src"][p]) for p in range(min(npid, len(f["pv_src"])))]
@@ -148,7 +148,7 @@ def restart_family(sc):
             b["start"] = rtime
             b["kill"] = [[s - rstep, p] for s, p in base["kill"] if s - rstep >= 0]
             b["killfarm"] = [[s - rstep, p] for s, p in base.get("killfarm", []) if s - rstep >= 0]
-            b["freeze"] = []
+            b["freeze"] = [[s - rstep, p] for s, p in base.get("freeze", []) if s - rstep >= 0]
             b["extra_files"] = {"restart_in.nc": src}
             b["warm"] = dict(name="restart_in.nc", idx=f["idx"], init=dict(parts=parts, npid=npid, born=born))
             if (f["idx"] + len(parts)) % 2 == 0:          # "unchanged settings": the configuration still names the original start time
@@ -174,7 +174,7 @@ def restart_family(sc):
                 if abs(base["stop"] - rtime2) // base["dt"] >= 1:
                     snap2 = o2["snap"]
                     alive2 = [i for i, a in enumerate(snap2["alive"]) if a]
-                    parts2 = [dict(pid=snap2["pid"][i], x=snap2["x"][i], y=snap2["y"][i], z=snap2["z"][i], alive=True, active=True,
+                    parts2 = [dict(pid=snap2["pid"][i], x=snap2["x"][i], y=snap2["y"][i], z=snap2["z"][i], alive=True, active=bool(snap2["active"][i]),
                                    farm=snap2["farm"][i], age=snap2["age"][i]) for i in alive2]
                     born2 = [dict(rt=f2["pv_release_time"][p], src=f2["pv_src"][p]) for p in range(min(snap2["npid"], len(f2["pv_src"])))]
                     c = dict(sc["base"])
@@ -182,7 +182,7 @@ def restart_family(sc):
                     c["start"] = rtime2
                     c["kill"] = [[s - rstep2, p] for s, p in base["kill"] if s - rstep2 >= 0]
                     c["killfarm"] = [[s - rstep2, p] for s, p in base.get("killfarm", []) if s - rstep2 >= 0]
-                    c["freeze"] = []
+                    c["freeze"] = [[s - rstep2, p] for s, p in base.get("freeze", []) if s - rstep2 >= 0]
                     c["extra_files"] = {"restart_in.nc": os.path.join(keep2, "out_%03d.nc" % f2["idx"])}     # written by the RESTARTED run
                     c["warm"] = dict(name="restart_in.nc", idx=f2["idx"], init=dict(parts=parts2, npid=snap2["npid"], born=born2), config_start=base["start"])
                     c["outname"] = "out_%03d.nc" % (f2["idx"] + 1)
